@@ -301,6 +301,21 @@ func (x *explorer) runJob(j job) {
 			}
 			return
 		}
+		fork := func(a altT) {
+			if a.cost > budget {
+				return
+			}
+			base := stateEvents(r.tr)
+			pf := make([]Ev, len(base)+1)
+			copy(pf, base)
+			pf[len(base)] = a.e
+			x.st.forks.Inc()
+			x.st.outcome(fmt.Sprintf("fork:%s:cost%d:from-used%d", a.e.K, a.cost, j.used))
+			x.push(job{c: c, ci: j.ci, prefix: pf, budget: budget - a.cost, used: j.used + a.cost, devs: j.devs + 1})
+		}
+		for _, a := range r.crashAlts() {
+			fork(a)
+		}
 		key, kv := r.tokey()
 		if kv != nil {
 			x.report(c, r, kv)
@@ -337,17 +352,8 @@ func (x *explorer) runJob(j job) {
 			x.report(c, r, &viol{Oracle: "stuck", What: "no event is enabled and the node has not reached the source's tip"})
 			return
 		}
-		base := stateEvents(r.tr)
 		for _, a := range alts {
-			if a.cost > budget {
-				continue
-			}
-			pf := make([]Ev, len(base)+1)
-			copy(pf, base)
-			pf[len(base)] = a.e
-			x.st.forks.Inc()
-			x.st.outcome(fmt.Sprintf("fork:%s:cost%d:from-used%d", a.e.K, a.cost, j.used))
-			x.push(job{c: c, ci: j.ci, prefix: pf, budget: budget - a.cost, used: j.used + a.cost, devs: j.devs + 1})
+			fork(a)
 		}
 		v = r.do(*def)
 		x.st.transitions.Inc()
